@@ -788,6 +788,8 @@ macro_rules! define_builder {
                         RepMode::Collect => $erase!(cx, r.collect::<Vec<Val>>().map(Val::Seq)),
                         RepMode::Count => $erase!(cx, r.count().map(|n: usize| Val::Num(n as u64))),
                         RepMode::Unit => $erase!(cx, r.map(|()| Val::Unit)),
+                        RepMode::Enumerate => $erase!(cx, r.enumerate().collect::<Vec<(usize, Val)>>().map(|v: Vec<(usize, Val)>| Val::Seq(v.into_iter().map(|(i, x)| Val::Seq(vec![Val::Num(i as u64), x])).collect()))),
+                        RepMode::Exactly2 => $erase!(cx, r.collect_exactly::<[Val; 2]>().map(|a: [Val; 2]| Val::Seq(a.to_vec()))),
                     }
                 }
                 G::Sep { item, sep, min, max, lead, trail, mode } => {
@@ -806,6 +808,59 @@ macro_rules! define_builder {
                         RepMode::Collect => $erase!(cx, r.collect::<Vec<Val>>().map(Val::Seq)),
                         RepMode::Count => $erase!(cx, r.count().map(|n: usize| Val::Num(n as u64))),
                         RepMode::Unit => $erase!(cx, r.map(|()| Val::Unit)),
+                        RepMode::Enumerate => $erase!(cx, r.enumerate().collect::<Vec<(usize, Val)>>().map(|v: Vec<(usize, Val)>| Val::Seq(v.into_iter().map(|(i, x)| Val::Seq(vec![Val::Num(i as u64), x])).collect()))),
+                        RepMode::Exactly2 => $erase!(cx, r.collect_exactly::<[Val; 2]>().map(|a: [Val; 2]| Val::Seq(a.to_vec()))),
+                    }
+                }
+                G::FoldWith(true, a, item) => {
+                    let (a, item) = (sub!(a), sub!(item));
+                    $erase!(cx, a.foldl_with(item.repeated(), |acc: Val, x: Val, e: &mut MapExtra<'a, '_, I, Ex<'a, I>>| {
+                        hook::cb();
+                        Val::Span(e.span().norm(), Box::new(Val::Num(crate::prng::fold(acc.shape(), x.shape()))))
+                    }))
+                }
+                G::FoldWith(false, item, b) => {
+                    let (item, b) = (sub!(item), sub!(b));
+                    $erase!(cx, item.repeated().foldr_with(b, |x: Val, acc: Val, e: &mut MapExtra<'a, '_, I, Ex<'a, I>>| {
+                        hook::cb();
+                        Val::Span(e.span().norm(), Box::new(Val::Num(crate::prng::fold(acc.shape(), x.shape()).rotate_left(9))))
+                    }))
+                }
+                G::Group3(a, b, c) => {
+                    let (a, b, c) = (sub!(a), sub!(b), sub!(c));
+                    $erase!(cx, chumsky::primitive::group((a, b, c)).map(|(x, y, z): (Val, Val, Val)| {
+                        hook::cb();
+                        Val::Seq(vec![x, y, z])
+                    }))
+                }
+                G::Choice3(a, b, c) => {
+                    let (a, b, c) = (sub!(a), sub!(b), sub!(c));
+                    $erase!(cx, choice((a, b, c)))
+                }
+                G::Un(kind, k, a) => {
+                    let (kind, k, a) = (*kind, *k, sub!(a));
+                    match kind {
+                        0 => $erase!(cx, a.map_err(|e: Rich<'a, I::Token, I::Span>| {
+                            hook::cb();
+                            e
+                        })),
+                        1 => $erase!(cx, a.map_err_with_state(|e: Rich<'a, I::Token, I::Span>, _span: I::Span, _st: &mut Insp| {
+                            hook::cb();
+                            e
+                        })),
+                        2 => $erase!(cx, a.try_map_with(move |v: Val, e: &mut MapExtra<'a, '_, I, Ex<'a, I>>| {
+                            hook::cb();
+                            if pred(k, &v) {
+                                Ok(Val::Span(e.span().norm(), Box::new(v)))
+                            } else {
+                                Err(Rich::custom(e.span(), format!("tmw{}", k)))
+                            }
+                        })),
+                        // the sub-parser runs on its own copy of this state, on every invocation
+                        3 => $erase!(cx, a.with_state(Insp { n: 3, h: k as u64 })),
+                        4 => $erase!(cx, a.map(|v: Val| Ok::<Val, String>(v)).unwrapped()),
+                        5 => $erase!(cx, a.with_ctx(())),
+                        _ => $erase!(cx, chumsky::primitive::map_ctx::<_, Val, I, Ex<'a, I>, Ex<'a, I>, _>(|_: &()| (), a)),
                     }
                 }
                 G::Foldl(a, item) => {
